@@ -41,6 +41,8 @@ ASSUMPTIONS = [
     'the caller never assigns .id, passes ints as desired ids, and only attaches an object to the map it was created for, in one place',
     'worldspawn is never removed; objects the harness holds but that are not reachable from a map are not judged',
     'nodeid values that do not parse as int are ignored; fixup variable names are non-empty',
+    'when a live id is missing from the map\'s public id manager (vmf.ent_id / solid_id / face_id / vis_id / node_id) the harness '
+    'appends one ordinary allocation asking for that id; only the resulting duplicate among live objects is judged',
     'object lifetime = CPython reference counting plus the explicit gc commands (automatic GC disabled during a case)',
     'entity classes used in collapse_one exist in the shipped FGD database',
     'malformed blocks given to the parse classmethods may be rejected with ValueError or LookupError (NoKeyError) or tolerated - '
@@ -56,7 +58,7 @@ CAPS = (300, 2400)
 KINDS = ('ent', 'solid', 'side', 'vis', 'group')
 SMALL_IDS = [0, -7, 1, 2, 3, 4, 6, 9]
 DOC_IDS = [None, '0', '-3', '1', '1', '2', '2', '3', '4', '7', '30', '4294967297']
-NODE_VALUES = ['1', '2', '3', '5', '0', '-1', 'x', '2']
+NODE_VALUES = ['1', '2', '3', '0', '-1', '5', 'x', '0', '4', '-1']   # 0 / -1: lowest free id, so a released id is re-issued at once
 VARS = ['a', 'A', '$b', 'b', 'c', 'long_name', 'd', '$E']
 FIX_IDS = [1, 1, 2, 3, 0, -1, 2, 99, 100, 7]
 REPL_KEYS = ['replace01', 'replace01', 'replace02', 'replace03', 'replace00', 'replace100', 'replace-1', 'replace02', 'replace10']
@@ -67,16 +69,16 @@ COLLAPSE_CLASSES = ['info_target', 'func_brush', 'info_node', 'logic_relay']
 FAMILIES: dict[str, list[str]] = {
     # allocation of every kind with desired ids, copies, last-reference drops (no entity removal: that is 'recycle')
     'alloc': ['new_ent', 'new_ent', 'new_solid', 'new_solid', 'new_side', 'new_vis', 'new_group', 'copy', 'copy', 'copy',
-              'detach', 'reattach', 'drop', 'drop', 'gc', 'grab', 'bad_side', 'bad_parse'],
+              'detach', 'reattach', 'drop', 'drop', 'gc', 'grab', 'bad_side', 'bad_parse', 'bad_parse'],
     # entities: remove, drop, gc, create again, re-add
     'recycle': ['new_ent', 'new_ent', 'new_ent', 'remove_ent', 'remove_ent', 'drop', 'drop', 'gc', 'reattach', 'copy', 'grab',
-                'clear_ent'],
+                'clear_ent', 'discard_ent'],
     # maps that come from VMF.parse of documents with bad ids
     'parse': ['new_ent', 'new_solid', 'new_side', 'new_vis', 'new_group', 'copy', 'grab', 'grab', 'detach', 'drop', 'gc',
-              'bad_side', 'bad_parse'],
+              'bad_side', 'bad_parse', 'bad_parse'],
     # node ids (judged: node ids only)
-    'nodeid': ['new_node', 'new_node', 'new_node', 'set_node', 'set_node', 'del_node', 'remove_ent', 'remove_ent', 'reattach',
-               'copy', 'grab', 'drop', 'gc', 'clear_ent'],
+    'nodeid': ['new_node', 'new_node', 'set_node', 'set_node', 'set_node', 'set_node', 'del_node', 'del_node', 'remove_ent',
+               'reattach', 'copy', 'grab', 'drop', 'gc', 'clear_ent', 'discard_ent', 'discard_ent'],
     # fixups (judged: fixup indexes only)
     'fixup': ['new_fix', 'new_fix', 'fix_set', 'fix_set', 'fix_set', 'fix_del', 'fix_del', 'fix_clear', 'fix_default',
               'copy', 'fix_many'],
@@ -84,7 +86,7 @@ FAMILIES: dict[str, list[str]] = {
     'collapse': ['new_ent', 'new_solid', 'new_vis', 'collapse', 'collapse', 'collapse', 'grab', 'detach', 'drop', 'copy'],
     'mixed': ['new_ent', 'new_ent', 'new_solid', 'new_side', 'new_vis', 'new_group', 'new_node', 'new_fix', 'copy', 'copy',
               'detach', 'remove_ent', 'remove_ent', 'reattach', 'drop', 'drop', 'gc', 'grab', 'set_node', 'del_node',
-              'fix_set', 'fix_del', 'collapse', 'bad_side', 'bad_parse', 'clear_ent'],
+              'fix_set', 'fix_del', 'collapse', 'bad_side', 'bad_parse', 'clear_ent', 'discard_ent'],
 }
 JUDGE = {
     'alloc': ('ent', 'solid', 'side', 'vis', 'group'),
@@ -370,6 +372,66 @@ def check_maps(w: World) -> None:
                     w.fail('fixup_unique', f'm{mi}: entity {w.name(e)} has repeated fixup indexes: '
                            f'{[(fv.var, fv.id) for fv in vals]}', kind='fixup')
     del reach
+    for mi, vmf in enumerate(w.maps):
+        follow_up(w, mi, vmf)
+
+
+def follow_up(w: World, mi: int, vmf) -> None:
+    """Adaptive last command: when the id of a live object is no longer registered in the map's public id manager
+    (``obj.id in vmf.solid_id`` ...), the harness asks for exactly that id with an ordinary constructor call and puts the new
+    object into the map.  Only the outcome is judged - two live objects with one id - the membership test merely picks
+    the command, so nothing beyond the statement is demanded."""
+    from srctools.vmf import Entity, Side, Solid, VisGroup
+    managers = {'ent': vmf.ent_id, 'solid': vmf.solid_id, 'side': vmf.face_id, 'vis': vmf.vis_id}
+    reach = walk(vmf)
+    for kind, man in managers.items():
+        if kind not in w.judge:
+            continue
+        for obj in reach[kind]:
+            oid = obj.id
+            if type(oid) is not int or oid < 1 or oid in man:
+                continue
+            w.flag('follow_up:' + kind)
+            if kind == 'ent':
+                new = Entity(vmf, keys={'classname': 'info_target'}, ent_id=oid)
+                vmf.add_ent(new)
+                txt = f'm{mi}.add_ent(Entity(m{mi}, ent_id={oid}))'
+            elif kind == 'solid':
+                new = Solid(vmf, oid, [])
+                vmf.add_brush(new)
+                txt = f'm{mi}.add_brush(Solid(m{mi}, {oid}))'
+            elif kind == 'side':
+                new = Side(vmf, planes(), oid)
+                vmf.add_brush(Solid(vmf, -1, [new]))
+                txt = f'm{mi}.add_brush(Solid(m{mi}, -1, [Side(m{mi}, planes, {oid})]))'
+            else:
+                new = VisGroup(vmf, 'follow_up', oid)
+                vmf.vis_tree.append(new)
+                txt = f'm{mi}.vis_tree.append(VisGroup(m{mi}, "follow_up", {oid}))'
+            w.log(f'<follow-up chosen by the harness because {oid} not in the {kind} id manager> {txt}  -> id {new.id}')
+            if new.id == oid:
+                w.fail('id_unique', f'm{mi}: two live {kind} objects reachable from the map share id {oid}: {w.name(obj)} and '
+                       f'the object just created with that desired id', kind=kind, follow_up=True)
+            return
+    if 'node' in w.judge:
+        for e in reach['ent']:
+            if 'nodeid' not in e:
+                continue
+            try:
+                nid = int(e['nodeid'])
+            except ValueError:
+                continue
+            if nid < 1 or nid in vmf.node_id:
+                continue
+            w.flag('follow_up:node')
+            new = vmf.create_ent('info_node')
+            new['nodeid'] = str(nid)
+            w.log(f'<follow-up chosen by the harness because {nid} not in m{mi}.node_id> '
+                  f'x = m{mi}.create_ent("info_node"); x["nodeid"] = "{nid}"  -> nodeid {new["nodeid"]!r}')
+            if new['nodeid'] == str(nid):
+                w.fail('node_unique', f'm{mi}: entity {w.name(e)} and the entity just created are both in the map with '
+                       f'nodeid {nid}', kind='node', follow_up=True)
+            return
 
 
 LINE = re.compile(r'^\s*"([^"]*)" "(.*)"\s*$')
@@ -885,6 +947,26 @@ def op_remove_ent(w: World, a, b, c, d, e):
         w.note_free('node')
 
 
+def op_discard_ent(w: World, a, b, c, d, e):
+    """The usual way an entity's life ends, as one step: remove it from the map, forget the last reference, collect."""
+    i = w.pick('ent', a)
+    if i < 0:
+        return
+    _, ent, mi = w.pool[i]
+    had_node = 'nodeid' in ent
+    eid = ent.id
+    ent.remove()
+    del ent
+    del w.pool[i]
+    gc.collect()
+    w.log(f'p{i}.remove(); del p{i}; gc.collect()  [entity id {eid}; later references are renumbered]')
+    for k in ('ent', 'solid', 'side'):
+        w.note_free(k)
+    if had_node:
+        w.note_free('node')
+    w.flag('discard_ent', 'drop_unreachable:ent', 'remove_ent_inmap')
+
+
 def op_drop(w: World, a, b, c, d, e):
     if not w.pool:
         return
@@ -929,11 +1011,22 @@ def op_grab(w: World, a, b, c, d, e):
 
 
 # -- node ids
+def node_value(w: World, n: int) -> str:
+    """A nodeid request: from the table, or (every third) numerically equal to the *entity* id of an entity the harness holds -
+    ids of different kinds live in separate pools, so equal numbers across kinds must never interact."""
+    if n % 3 == 2:
+        ents = [r[1] for r in w.pool if r[0] == 'ent']
+        if ents:
+            w.flag('nodeid_equals_an_entity_id')
+            return str(ents[(n // 3) % len(ents)].id)
+    return NODE_VALUES[n % len(NODE_VALUES)]
+
+
 def op_new_node(w: World, a, b, c, d, e):
     from srctools.vmf import Entity
     mi = a % 2
     vmf = w.maps[mi]
-    val = NODE_VALUES[b % len(NODE_VALUES)]
+    val = node_value(w, b)
     if c % 3 == 0:
         ent = vmf.create_ent('info_node', nodeid=val)
         w.pool.append(['ent', ent, mi])
@@ -955,7 +1048,7 @@ def op_set_node(w: World, a, b, c, d, e):
     if i < 0:
         return
     ent = w.pool[i][1]
-    val = NODE_VALUES[b % len(NODE_VALUES)]
+    val = node_value(w, b)
     had = 'nodeid' in ent
     key = ['nodeid', 'NodeID', 'NODEID'][c % 3]
     ent[key] = val
@@ -1148,7 +1241,7 @@ OPS = {
     'drop': op_drop, 'gc': op_gc, 'grab': op_grab, 'new_node': op_new_node, 'set_node': op_set_node, 'del_node': op_del_node,
     'new_fix': op_new_fix, 'fix_set': op_fix_set, 'fix_del': op_fix_del, 'fix_clear': op_fix_clear,
     'fix_default': op_fix_default, 'fix_many': op_fix_many, 'collapse': op_collapse,
-    'bad_side': op_bad_side, 'bad_parse': op_bad_parse, 'clear_ent': op_clear_ent,
+    'bad_side': op_bad_side, 'bad_parse': op_bad_parse, 'clear_ent': op_clear_ent, 'discard_ent': op_discard_ent,
 }
 
 
@@ -1243,7 +1336,8 @@ SUBCHECKS = [
                                      'op:gc')),
     _sub('parse', 400, 14000, 50, ('parsed_colliding_ids', 'parsed_fixups', 'parsed_nodeid', 'grab:ent', 'grab:solid',
                                    'failed_ctor_then_alloc')),
-    _sub('nodeid', 500, 14000, 50, ('alloc_after_free:node', 'del_node', 'set_node_attached', 'set_node_detached',
+    _sub('nodeid', 800, 14000, 50, ('alloc_after_free:node', 'del_node', 'set_node_attached', 'set_node_detached',
+                                    'nodeid_equals_an_entity_id',
                                     'reattach:ent')),
     _sub('fixup', 500, 14000, 50, ('alloc_after_free:fixup', 'fixup_list_duplicate_index', 'fixup_list_nonpositive_index',
                                    'fix_del', 'fixup_over_100')),
